@@ -118,6 +118,10 @@ theorem gru_block_eq (idx : Nat) :
       simp [h0, h1, a, b]
 
 
+/-- no functional pad / pool / interpolate / fold call under `direct/nn` outside the functions the shape model covers (and
+the table is not empty: the scan found the known sites) -/
+theorem size_sites_ok : sizeSitesOk size_sites = true ∧ 8 ≤ size_sites.length := by decide
+
 /-! ## forward programs: the AST of every `forward`, interpreted on instantiated modules, is the expansion of the
 hand-written shape program the theorems are about (`C17.expanded_program_equiv` relates the two semantically) -/
 
